@@ -42,6 +42,10 @@ func runC04(c *Ctx) {
 	funcFieldsSet(c, pkgGraphql)
 	c13GroupIsolated(c)
 	layoutAgreement(c)
+	errorOnPath(c)
+	c13Accounting(c)
+	c01ListNull(c)
+	c05WG(c)
 }
 
 // userCallKind classifies a call instruction in generated code as a call into user code.
